@@ -25,6 +25,22 @@ MANIFEST = dict(
 PATTERNS = [("", ") "), ("[", "] "), ("", "."), ("#", " - ")]
 
 
+def item_widget(k):
+    """What an item shows is not the property's business: besides TextWidget, items are plain Widget subclasses and
+    ColumnWidgets (no `.text`, no `.title`), all rendering to the single line "w"."""
+    from simpleline.render.widgets import TextWidget, Widget, ColumnWidget
+
+    class Plain(Widget):
+        def render(self, width):
+            super().render(width)
+            self.write("w")
+    if k % 3 == 1:
+        return Plain()
+    if k % 3 == 2:
+        return ColumnWidget([(1, [TextWidget("w")])], 0)
+    return TextWidget("w")
+
+
 def impl_case(case):
     """case = dict(kind, numbering, prefix, suffix, offset, items=[(cb|None, data)], key)"""
     from simpleline.render.containers import ListRowContainer, ListColumnContainer, WindowContainer, KeyPattern
@@ -44,9 +60,9 @@ def impl_case(case):
             c.key_pattern = None
     for cb, data in case["items"]:
         if cb is None:
-            c.add(TextWidget("w"), None, data)
+            c.add(item_widget(len(fired) + data), None, data)
         else:
-            c.add(TextWidget("w"), (lambda d, cb=cb: fired.append([cb, d])), data)
+            c.add(item_widget(data), (lambda d, cb=cb: fired.append([cb, d])), data)
     hist = case.get("history")
     if hist and kind != "win" and case["numbering"]:
         # the container was already shown with ANOTHER numbering before the current one was set
